@@ -5,32 +5,33 @@ one line per node object (post-order, pointer sharing), children referred to by 
 -/
 namespace PO
 
-/-- a rendered line: the node's name, its combinator payload, the names of its children -/
-structure Line where
-  name : String
-  payload : Nat
-  left : Option String
-  right : Option String
+/-- a rendered line: the node's name, its combinator payload, the names of its children
+(`N` = names, `P` = payloads: combinator, literal data, arrow) -/
+structure Line (N P : Type) where
+  name : N
+  payload : P
+  left : Option N
+  right : Option N
 deriving DecidableEq, Repr
 
 /-- program text modulo layout: what `resolve` rebuilds -/
-inductive Tree | leaf (p : Nat) | un (p : Nat) (l : Tree) | bin (p : Nat) (l r : Tree)
+inductive Tree (P : Type) | leaf (p : P) | un (p : P) (l : Tree P) | bin (p : P) (l r : Tree P)
 deriving DecidableEq, Repr
 
-variable (name : T → String) (payload : T → Nat)
+variable {N P : Type} [DecidableEq N] (name : T → N) (payload : T → P)
 
-def lineOf (t : T) : Line := ⟨name t, payload t, t.left.map name, t.right.map name⟩
+def lineOf (t : T) : Line N P := ⟨name t, payload t, t.left.map name, t.right.map name⟩
 
 /-- `string_serialize`: one line per yielded item of the pointer-sharing post-order walk -/
-def render (root : T) : List Line := (visit ptr root (fun _ => none) 0).1.map fun o => lineOf name payload o.node
+def render (root : T) : List (Line N P) := (visit ptr root (fun _ => none) 0).1.map fun o => lineOf name payload o.node
 
-def shapeOf : T → Tree
+def shapeOf : T → Tree P
   | .leaf id => .leaf (payload (.leaf id))
   | .un id l => .un (payload (.un id l)) (shapeOf l)
   | .bin id l r => .bin (payload (.bin id l r)) (shapeOf l) (shapeOf r)
 
 /-- `resolve`: look a name up among the lines and rebuild, with fuel -/
-def resolve (lines : List Line) : Nat → String → Option Tree
+def resolve (lines : List (Line N P)) : Nat → N → Option (Tree P)
   | 0, _ => none
   | f+1, n =>
     match lines.find? (·.name = n) with
@@ -172,7 +173,7 @@ theorem resolve_render (root : T) (hi : IdsFaithful root) (hn : NamesFaithful na
 
 /-- every name is defined exactly once in the rendered text -/
 theorem render_names_unique (root : T) (hi : IdsFaithful root) (hn : NamesFaithful name root)
-    (i j : Nat) (a b : Line) (ha : (render name payload root)[i]? = some a)
+    (i j : Nat) (a b : Line N P) (ha : (render name payload root)[i]? = some a)
     (hb : (render name payload root)[j]? = some b) (hab : a.name = b.name) : i = j := by
   unfold render at ha hb
   rw [List.getElem?_map] at ha hb
